@@ -94,3 +94,14 @@ func (k Keeper) ClearPendingUndelegations(ctx sdk.Context) {
 	store := ctx.KVStore(k.storeKey)
 	store.Delete(types.PendingUndelegationsKey())
 }
+
+// HasScheduledOperations returns true if any opt out, consensus address pruning or undelegation
+// maturity is scheduled for a future epoch end, or is pending for the end of the current block.
+func (k Keeper) HasScheduledOperations(ctx sdk.Context) bool {
+	return len(k.GetAllOptOutsToFinish(ctx)) > 0 ||
+		len(k.GetAllConsAddrsToPrune(ctx)) > 0 ||
+		len(k.GetAllUndelegationsToMature(ctx)) > 0 ||
+		len(k.GetPendingOptOuts(ctx).List) > 0 ||
+		len(k.GetPendingConsensusAddrs(ctx).List) > 0 ||
+		len(k.GetPendingUndelegations(ctx).List) > 0
+}
